@@ -222,7 +222,9 @@ def fix_unconventional_class_definitions(source: str) -> str:
 
     {{ClassName}}.{{attr}} = {{value}}
     """
-    template = core.compile_template(template)
+    # compile_template caches its result, so the class template is adjusted on a copy
+    template = list(core.compile_template(template))
+    template[0] = copy.copy(template[0])
     template[0].bases = list
     template[0].decorator_list = list
 
